@@ -220,6 +220,26 @@ def run(spec, ctx):
                     continue
                 seen.add(text)
                 check_query_case(ctx, ast, doc, text, "random", nontrivial=nontrivial, model=model, sample_p=0.001)
+            if i % 3 == 0:
+                # one compiled object over several documents: `$` must denote each call's own argument
+                import jsonpath
+                from rt import impl
+
+                comp = impl.call(jsonpath.compile, text)
+                if comp.ok:
+                    for _d in range(3):
+                        d2 = gen.filter_doc(r, names, strings + [w for w in fg.witnesses if "\n" not in w and "\r" not in w])
+                        try:
+                            m2 = ref.eval_query(ast, d2)
+                        except ref_regex.Unsupported:
+                            continue
+                        got = impl.call(lambda: impl.match_records(comp.value.finditer(d2)))
+                        ctx.evaluation()
+                        ctx.count("reused_compiled_evaluations")
+                        diff = got.desc() if not got.ok else impl.nodes_equal(got.value, m2)
+                        if diff:
+                            ctx.violation("reused-compiled-query-differs-from-model", {"class": "reuse", "ast": ast, "doc": d2, "text": text, "first_doc": doc}, {"text": text, "diff": diff, "first_doc": canon(doc)[:200], "doc": canon(d2)[:200]})
+                            break
     for k, v in hooks.STATE.sel_matrix.items():
         ctx.cell("H1_selector_x_kind", "|".join(k), v)
     for k, v in hooks.STATE.cmp_matrix.items():
@@ -263,4 +283,16 @@ def finalize(m, tier):
 
 def replay(case, ctx):
     install()
+    if case.get("class") == "reuse":
+        import jsonpath
+        from rt import impl, ref_jsonpath as ref
+
+        p = jsonpath.compile(case["text"])
+        list(p.finditer(case["first_doc"]))
+        ctx.evaluation()
+        got = impl.call(lambda: impl.match_records(p.finditer(case["doc"])))
+        diff = got.desc() if not got.ok else impl.nodes_equal(got.value, ref.eval_query(case["ast"], case["doc"]))
+        if diff:
+            ctx.violation("reused-compiled-query-differs-from-model", case, {"diff": diff})
+        return
     check_query_case(ctx, case["ast"], case["doc"], case["text"], case.get("class", "replay"), nontrivial=True)
